@@ -6,6 +6,7 @@ import BctVerif.Lemmas.NbsStat
 Theorems about the executable model `Bct.Nbs` (all sizes, all data, all thresholds, all draw lists):
 
 * `exceeds2_iff_real`, `exceedsP_iff_real` – the square-root-free decision is `thr < t` for the real t statistic
+* `exceeds2_zero_variance`, `exceedsP_zero_variance` – the coded behaviour on zero-variance edges (two-sample: statistic 0; paired: ±inf / nan)
 * `adj0_isAdj`, `adj0_eq_one_iff`  – the thresholded matrix is symmetric 0/1 with empty diagonal, 1 exactly on
                                     the cells whose (upper-triangular) statistic exceeds the threshold
 * `adj_spec`        – marked cells = suprathreshold cells; labels lie in `1..C`, two marked cells carry the same
@@ -52,6 +53,15 @@ theorem exceeds2_zero_variance (x y : List ℚ) (thr : ℚ) (tail : Tail) (hV : 
     exceeds2 x y thr tail = true ↔ thr < 0 := by
   unfold exceeds2; rw [if_pos hV]; simp
 
+/-- paired test with zero variance of the differences (`sample_ss == 0`): the float code divides by zero, giving `+inf`,
+`-inf` or `nan`; the model's decision is `0 < ` (mean difference in the requested tail), independent of the threshold -/
+theorem exceedsP_zero_variance (x y : List ℚ) (thr : ℚ) (tail : Tail) (hss : pairedSS (diffs x y) = 0) :
+    exceedsP x y thr tail = true ↔ 0 < tnum tail (mean (diffs x y)) := by
+  unfold exceedsP
+  simp only
+  rw [if_pos hss]; simp
+
+example : exceedsP [1, 2, 3] [3, 4, 5] 100 .left = true ∧ pairedSS (diffs [1, 2, 3] [3, 4, 5]) = 0 := by decide +kernel
 example : exceeds2 [1, 1, 1] [5, 5, 5, 5] 2 .left = false ∧ pooledV [1, 1, 1] [5, 5, 5, 5] = 0 := by decide +kernel
 example : exceeds2 [1, 2, 3] [7, 8, 9, 8] 2 .left = true ∧ 0 < pooledV [1, 2, 3] [7, 8, 9, 8] := by decide +kernel
 example : exceedsP [1, 2, 4] [3, 3, 7] 2 .left = true ∧ exceedsP [1, 2, 4] [3, 3, 7] 2 .right = false := by decide +kernel
